@@ -92,6 +92,7 @@ def check(rep, tier, seed, specs=None, n_override=None):
         hdr = r.get('hdr') or {'n': 0, 'bad': []}
         n_entries += hdr['n']
         rep.add_case(hdr['n'] > 0, r.get('feature'), r.get('sample'))
+        rep.add_class_case((r.get('spec') or {}).get('stratum'))
         has_nested = r.get('has_nested_donor', False)
         for b in hdr['bad']:
             mech = classify(b, has_nested)
